@@ -222,6 +222,7 @@ type Exec struct {
 	pendingGhost []pendingGhostCheck
 	allocSeq int
 	noSafety int
+	recoverNondet bool
 	approx   int // over-approximation events so far (havoc of unknown effects, loop summaries, unconstrained results)
 	facts    map[*smt.Term]*smt.Term
 	foldMemo map[*smt.Term]*smt.Term
